@@ -509,6 +509,19 @@ def ob_roundtrip(sim, mode, dynamic, variant=None):
                 raise Refuted(f"{sim}/{mode}: stored iteration {i} changed after Set_Iter(0) + Solve + Save_Iter (entry {why})",
                               cex=dict(history=hist + ["Set_Iter(0)", "Solve", "Save_Iter"]), signature=f"roundtrip:{sim}:stored_changed_after_restore", replay=dict(confirmed=True))
         return Verdict(DISCHARGED, backend="native run (run-time contract, exact equality)", detail=f"history {hist}")
+    except (Refuted, Unsupported):
+        raise
+    except Exception as ex:
+        # an operation of the history (solve / save / restore / query on a valid sequence) that raises inside the library: the iteration cannot be restored / read
+        import traceback
+        frames = traceback.extract_tb(ex.__traceback__)
+        lib = [f for f in frames if "/EasyFEA/" in f.filename]
+        if not lib:
+            raise
+        mine = [f for f in frames if f.filename.endswith("C15.py")]
+        call = mine[-1].line if mine else "?"
+        raise Refuted(f"{sim}{'/' + variant if variant else ''}/{mode}: `{call}` raises {type(ex).__name__}: {str(ex)[:160]} ({lib[-1].name}, line {lib[-1].lineno})",
+                      cex=dict(call=call), signature=f"roundtrip:{sim}:raises:{lib[-1].name}", replay=dict(confirmed=True, raised=repr(ex)[:200]))
     finally:
         shutil.rmtree(tmp, ignore_errors=True)
 
